@@ -158,6 +158,14 @@ def cell_programs():
                 src = PRE + "a: %s = %s\ne: %s = %s\n" % (sk, lo, sk, hi) + ("" if tk is None else "st: %s = %s\n" % (tk, NUMS[tk][2])) + \
                     "print \"@run\"\n" + head + "\n" + "".join("\t" + l + "\n" for l in probe("i").strip().split("\n")) + "}\n"
                 out.append(("loop-counter|%s|%s|%s" % (sk, tk or "nostep", form), src))
+                # the counter REUSES a variable of the start's kind (also an optional one): with a step of a wider kind the loop would
+                # store values of another kind in it - the program must be rejected, or the probes must agree
+                for decl_t in (sk, sk + "?"):
+                    head2 = "from a %s e%s, cv {" % (form, "" if tk is None else " step st")
+                    body = "".join("\t" + l + "\n" for l in probe("cv").strip().split("\n"))
+                    src2 = PRE + "a: %s = %s\ne: %s = %s\n" % (sk, lo, sk, hi) + ("" if tk is None else "st: %s = %s\n" % (tk, NUMS[tk][2])) + \
+                        "cv: %s = %s\nprint \"@run\"\n" % (decl_t, lo) + head2 + "\n" + body + "}\n" + probe("cv") + ("" if decl_t.endswith("?") else probe("cv + cv"))
+                    out.append(("loop-counter-reuse|%s|%s|%s|%s" % (decl_t, tk or "nostep", form, sk), src2))
     # list and map built-ins: declared result type against the run-time kind, on containers whose key / value / element
     # kinds all differ (so a signature built from the wrong type parameter shows)
     COLL = "ms: map[str, int] = map[str, int] {\"k\": 1, \"j\": 2}\nmf: map[int, float] = map[int, float] {1: 1.5, 2: 2.5}\nmb: map[str, bool] = map[str, bool] {\"t\": true}\n" \
@@ -307,6 +315,10 @@ def catalogue():
     c.append(("cat|wide-literal-operand", "x: int = 5\nb: bigint = B7\nprint \"@run\"\n" + probe("x + 3000000000") + probe("3000000000") + probe("x * 4000000000") + probe("0xFFFFFFFF") +
               probe("b + 2147483648") + probe("x - 2147483648") + probe("x < 2147483648") + probe("2147483647") + probe("x + 2147483647")))
     c.append(("cat|wide-literal-stored", "print \"@run\"\ny = 2147483648\n" + probe("y") + probe("y + 1") + "l = [3000000000]\n" + probe("l[0]") + "m = map[str, bigint] {\"k\": 3000000000}\n" + probe("m[\"k\"]")))
+    # a method and a field of one class with one name (either order): if accepted, the call / the read must match the static type
+    c.append(("cat|member-name-used-twice|method-first", "class A2 {\n\tfn v(self) -> str {\n\t\treturn \"m\"\n\t}\n\tv: int\n\tconstructor(self) {\n\t}\n}\na2 = A2()\nprint \"@run\"\n" + probe("a2.v()")))
+    c.append(("cat|member-name-used-twice|field-first", "class A3 {\n\tv: int\n\tfn v(self) -> str {\n\t\treturn \"m\"\n\t}\n\tconstructor(self) {\n\t\tself.v = 1\n\t}\n}\na3 = A3()\nprint \"@run\"\n" + probe("a3.v")))
+    c.append(("cat|generic-result-with-optional", "xs: [int...] = [1, 2]\nfo = fn(x: int) -> int? {\n\treturn nil\n}\nprint \"@run\"\nys: [int...] = xs.map(fo)\n" + probe("ys[0]") + "zs = xs.map(fo)\nws: [int...] = zs\n" + probe("ws[0]")))
     c.append(("cat|export-declared-type-differs", "import f from lib\nprint \"@run\"\n" + probe("f(2)"), {"lib.ms": "export f: fn(int) -> str = fn(a: int) -> int {\n\treturn a\n}\n"}))
     return c
 
